@@ -23,7 +23,8 @@ from harness.props import c19_redirect
 from harness.props.c19_facts import facts  # noqa: F401  (translator entry point)
 
 PROP = "C19"
-DRIVER_MODULES = ["PsutilModel.Model.C19Gen", "PsutilModel.Spec.C19", "PsutilModel.Spec.C19Cores"]
+DRIVER_MODULES = ["PsutilModel.Model.C19Gen", "PsutilModel.Model.C19Dir", "PsutilModel.Spec.C19", "PsutilModel.Spec.C19Cores",
+                  "PsutilModel.Spec.C19Dir"]
 NEEDS_EXT = True
 TRUSTED = [
     "C19 redirect layer (harness/props/c19_redirect.py): glob.glob / os.listdir / os.sysconf / os.path.exists and open() as seen by psutil._pslinux / psutil._common are served from a temp root; an 'unreadable' file is an existing file whose open() raises PermissionError",
@@ -201,6 +202,8 @@ def gen_sensor(rng, fam):
         s[b] = rng.choice([good_int(rng.randrange(1, 110000)), None, good_int(0), hx(b"junk")])
     elif fam == "all_absent":
         s = {"input": None, "label": None, "max": None, "crit": None, "other": False}
+    elif fam == "padded":
+        s = {k: (pad_file(rng, v) if k != "other" else v) for k, v in s.items()}
     return s
 
 
@@ -215,6 +218,11 @@ def gen_chip(rng, fam, nested=None):
          "name": text_file(rng, 0.05, 0.05) if fam != "no_name" else rng.choice([None, False]),
          "temps": [gen_sensor(rng, fam) for _ in range(rng.randrange(0, 4))],
          "fans": []}
+    if fam == "big_index":
+        c["temps"] = [gen_sensor(rng, "basic") for _ in range(rng.randrange(2, 7))]
+        c["temps"] = [dict(t, idx=i) for t, i in zip(c["temps"], big_indices(rng, len(c["temps"])))]
+    if fam == "padded":
+        c["name"] = pad_file(rng, c["name"])
     return c
 
 
@@ -227,10 +235,25 @@ def gen_trip(rng):
             "hyst": rng.random() < 0.3}
 
 
-def assign_trip_names(rng, trips):
-    """give each trip point a distinct trip_point_N index (N chosen at random: varies the set order)"""
-    ks = rng.sample(range(0, 40), len(trips))
+def assign_trip_names(rng, trips, style=None):
+    """give each trip point a distinct trip_point_N index (N chosen at random: varies the set order).
+    `kernel`: contiguous 0..n-1 in a random assignment (what the kernel creates); `wide`: indices with 2-4 digits"""
+    if style == "kernel":
+        ks = list(range(len(trips)))
+        rng.shuffle(ks)
+    elif style == "wide":
+        ks = rng.sample([9, 10, 11, 19, 20, 99, 100, 101, 255, 999, 1000, 1234, 4095, 10000, 65535], len(trips))
+    else:
+        ks = rng.sample(range(0, 40), len(trips))
     return [dict(t, k=k) for t, k in zip(trips, ks)]
+
+
+# other attributes of a thermal zone directory (none matches `trip_point*`), and names that DO match the glob
+# without being one of the kernel's three trip-point files (the specification is silent on those)
+ZONE_OTHER_FILES = ["mode", "policy", "available_policies", "cdev0_trip_point", "cdev1_trip_point", "cdev0_weight",
+                    "k_po", "k_pu", "emul_temp", "integral_cutoff", "offset", "slope", "sustainable_power", "uevent"]
+ZONE_FOREIGN_TRIP_FILES = ["trip_point_count", "trip_points", "trip_point_0", "trip_point_3_temp_max", "trip_point_07_type",
+                           "trip_point_x_type", "trip_point__type", "trip_point_2_Type"]
 
 
 def unique_kinds(trips):
@@ -251,25 +274,48 @@ def unique_kinds(trips):
 
 def gen_zone(rng, fam):
     n = rng.randrange(0, 6) if fam != "single_trip" else 1
+    if fam == "many_trips":
+        n = rng.randrange(11, 18)
     trips = [gen_trip(rng) for _ in range(n)]
+    if fam == "many_trips":
+        # the kernel's numbering 0..n-1; the `critical` / `high` trip point sits at an index >= 10
+        trips = [dict(t, typ=hx(rng.choice([b"passive\n", b"active\n", b"hot\n"])) if isinstance(t["typ"], str) else t["typ"])
+                 for t in trips]
+        trips = [dict(t, k=k) for k, t in enumerate(trips)]
+        for kind, lo, hi in ((b"critical\n", 90000, 120000), (b"high\n", 70000, 90000)):
+            if rng.random() < 0.85:
+                j = rng.randrange(10, n)
+                trips[j] = {"k": j, "typ": hx(kind), "temp": good_int(rng.randrange(lo, hi)), "hyst": rng.random() < 0.5}
+        trips = unique_kinds(trips)
+        rng.shuffle(trips)
+        return {"temp": num_file(rng, 0, 110000, p_junk=0.02), "typ": text_file(rng, 0.02, 0.02), "trips": trips}
     if fam == "multi_trip":
         trips = [{"typ": hx(b"critical\n"), "temp": good_int(rng.randrange(90000, 120000)), "hyst": False},
                  {"typ": hx(b"high\n"), "temp": good_int(rng.randrange(70000, 90000)), "hyst": False}] + trips[:3]
         rng.shuffle(trips)
     if fam != "dup_kinds":
         trips = unique_kinds(trips)
-    return {"temp": num_file(rng, 0, 110000, p_junk=0.05), "typ": text_file(rng, 0.05, 0.05),
-            "trips": assign_trip_names(rng, trips)}
+    z = {"temp": num_file(rng, 0, 110000, p_junk=0.05), "typ": text_file(rng, 0.05, 0.05),
+         "trips": assign_trip_names(rng, trips, {"wide_index": "wide", "zone_extra": "kernel"}.get(fam))}
+    if fam == "zone_extra":
+        z["extra"] = [[n, rng.choice([hx(b"enabled\n"), hx(b"0\n"), hx(b"critical\n"), False])]
+                      for n in rng.sample(ZONE_OTHER_FILES, rng.randrange(1, 6))]
+        if rng.random() < 0.3:
+            z["extra"] += [[n, rng.choice([hx(b"critical\n"), hx(b"99000\n"), hx(b"high\n")])]
+                           for n in rng.sample(ZONE_FOREIGN_TRIP_FILES, rng.randrange(1, 3))]
+    return z
 
 
 TEMP_FAMILIES = ["basic", "missing", "nonnumeric_thr", "zero_thr", "nested", "no_name", "all_absent",
-                 "zones", "multi_trip", "single_trip", "dup_kinds", "no_sensors", "coretemp", "both"]
+                 "zones", "multi_trip", "single_trip", "dup_kinds", "no_sensors", "coretemp", "both",
+                 "many_trips", "wide_index", "zone_extra", "big_index", "padded"]
+ZONE_FAMILIES = ("zones", "multi_trip", "single_trip", "dup_kinds", "many_trips", "wide_index", "zone_extra")
 
 
 def gen_temps(rng, fam):
     case = {"fn": "temps", "family": fam, "fahrenheit": rng.random() < 0.4, "chips": [], "coretemp": 0, "zones": []}
-    if fam in ("zones", "multi_trip", "single_trip", "dup_kinds"):
-        case["zones"] = [gen_zone(rng, fam) for _ in range(rng.randrange(1, 4))]
+    if fam in ZONE_FAMILIES:
+        case["zones"] = [gen_zone(rng, fam) for _ in range(rng.randrange(1, 4) if fam != "many_trips" else 1)]
         if rng.random() < 0.3:                    # chips that list nothing must not stop the fallback
             case["chips"] = [dict(gen_chip(rng, "all_absent"), temps=[gen_sensor(rng, "all_absent")])]
     elif fam == "no_sensors":
@@ -288,6 +334,24 @@ def gen_temps(rng, fam):
     return case
 
 
+WS = [b" ", b"  ", b"\t", b"\n", b"\n\n", b" \n", b"\r\n", b" \t \n", b"\x0b", b"\x0c"]
+
+
+def pad_file(rng, v):
+    """the same content with blanks / newlines before and after (int(), float() and strip() must not see them)"""
+    if not isinstance(v, str):
+        return v
+    b = bytes.fromhex(v).strip()
+    pre = b"".join(rng.choice(WS) for _ in range(rng.randrange(0, 3)))
+    post = b"".join(rng.choice(WS) for _ in range(rng.randrange(0, 4)))
+    return hx(pre + b + post)
+
+
+def big_indices(rng, n):
+    """sensor / fan numbers with two and more digits (the kernel numbers them temp1 … tempN, no upper bound)"""
+    return sorted(rng.sample([1, 2, 9, 10, 11, 12, 19, 20, 21, 99, 100, 101, 110, 255, 1000], n))
+
+
 def gen_fans(rng, fam):
     chips = []
     for _ in range(rng.randrange(0, 4)):
@@ -298,13 +362,21 @@ def gen_fans(rng, fam):
         elif fam != "fan_no_name":
             c["name"] = hx(rng.choice(TEXTS))
         c["fans"] = [gen_fan(rng, fam) for _ in range(rng.randrange(0, 4))]
+        if fam == "fan_padded":
+            c["name"] = pad_file(rng, c["name"])
+            c["fans"] = [dict(f, input=pad_file(rng, f["input"]), label=pad_file(rng, f["label"])) for f in c["fans"]]
+        if fam == "fan_big_index":
+            c["fans"] = [gen_fan(rng, fam) for _ in range(rng.randrange(2, 6))]
+            c["fans"] = [dict(f, idx=i) for f, i in zip(c["fans"], big_indices(rng, len(c["fans"])))]
         chips.append(c)
     return {"fn": "fans", "family": fam, "chips": chips}
 
 
 BAT_NAMES = [b"BAT0", b"BAT1", b"BAT2", b"BATC", b"battery", b"CMB0-battery", b"main-Battery", b"hidpp_battery_0",
-             b"bq27000-BATTERY"]
-OTHER_NAMES = [b"AC0", b"AC", b"ADP1", b"ucsi-source-psy", b"bat0", b"usb"]
+             b"bq27000-BATTERY", b"BAT10", b"BATT", b"hidpp_battery_12", b"wacom_battery_0", b"sbs-4-000b-Battery",
+             b"Battery", b"hid-0018:04F3:2D4A.0001-battery"]
+OTHER_NAMES = [b"AC0", b"AC", b"ADP1", b"ucsi-source-psy", b"bat0", b"usb", b"CMB0", b"CMB1", b"Bat1", b"ACAD", b"bms",
+               b"batt-ery", b"hidpp_batt_0"]
 STATUS = [b"Discharging\n", b"Charging\n", b"Full\n", b"Unknown\n", b"Not charging\n", b"discharging", b" FULL \n", b""]
 
 
@@ -343,14 +415,39 @@ def gen_battery(rng, fam):
         case["dir"] = False
         return case
     names = []
-    if fam != "no_battery":
-        names += rng.sample(BAT_NAMES, rng.randrange(1, 4))
-    names += rng.sample(OTHER_NAMES, rng.randrange(0, 4))
+    if fam == "names":
+        # the selection rule: BAT* / *battery* (any case) — and look-alikes that must NOT be taken
+        names += rng.sample(BAT_NAMES, rng.randrange(0, 5))
+        names += rng.sample(OTHER_NAMES, rng.randrange(1, 6))
+    else:
+        if fam != "no_battery":
+            names += rng.sample(BAT_NAMES, rng.randrange(1, 4))
+        names += rng.sample(OTHER_NAMES, rng.randrange(0, 4))
     rng.shuffle(names)
     for n in names:
-        s = gen_supply(rng, n, fam)
+        s = gen_supply(rng, n, fam if fam not in ("names", "bat_padded", "negative") else "normal")
         if n in (b"AC0", b"AC", b"ADP1"):
             s["online"] = rng.choice([good_int(0), good_int(1), good_int(1), None, False, hx(b"yes\n"), good_int(2)])
+        if fam == "names":
+            # every candidate answers differently, so that picking another one shows
+            s["capacity"] = good_int(rng.randrange(0, 101))
+            for k in ("energy_now", "charge_now", "energy_full", "charge_full"):
+                s.pop(k, None)
+            # files psutil must not look at: the power_supply class `type` and `scope` (Device = HID peripheral)
+            s["type"] = hx(rng.choice([b"Battery\n", b"Mains\n", b"USB\n", b"UPS\n"]))
+            if rng.random() < 0.5:
+                s["scope"] = hx(rng.choice([b"Device\n", b"System\n", b"Unknown\n"]))
+        if fam == "negative":
+            # Documentation/ABI/testing/sysfs-class-power: current_now is negative while discharging on some drivers
+            k = rng.choice(["power_now", "current_now"])
+            s[k] = good_int(-rng.choice([1, 3600, 7200, 1000000, rng.randrange(1, 30000000)]))
+            s[rng.choice(["energy_now", "charge_now"])] = good_int(rng.choice([0, 1, 2, 3600, rng.randrange(0, 60000000)]))
+            if rng.random() < 0.3:
+                s["time_to_empty_now"] = good_int(-rng.randrange(1, 500))
+            if rng.random() < 0.2:
+                s[rng.choice(["energy_full", "charge_full"])] = good_int(-rng.randrange(1, 60000000))
+        if fam == "bat_padded":
+            s = {k: (pad_file(rng, v) if k != "name" else v) for k, v in s.items()}
         case["supplies"].append(s)
     return case
 
@@ -533,16 +630,42 @@ def gen_stats(rng, fn):
 # ------------------------------------------------------------------------------ case → driver line
 
 
-def order_trips(zone, order):
-    by_k = {t["k"]: t for t in zone["trips"]}
-    listed = [k for k in order if k in by_k]
-    # trip points that list no file at all are not in psutil's set; the model filters them too
-    rest = [t for t in zone["trips"] if t["k"] not in listed]
-    return [by_k[k] for k in listed] + rest
+def zone_files(z):
+    """the listing of the zone directory as c19_redirect.build_temps writes it: [[name (hex), state], …]"""
+    files = []
+    for name, key in (("temp", "temp"), ("type", "typ")):
+        if z.get(key) is not None:
+            files.append([hx(name.encode()), z[key]])
+    for t in z.get("trips", []):
+        for suf, v in (("type", t.get("typ")), ("temp", t.get("temp")), ("hyst", hx(b"0\n") if t.get("hyst") else None)):
+            if v is not None:
+                files.append([hx(("trip_point_%d_%s" % (t["k"], suf)).encode()), v])
+    for name, v in z.get("extra", []):
+        if v is not None:
+            files.append([hx(name.encode()), v])
+    return files
 
 
-def strip_trip(t):
-    return {k: v for k, v in t.items() if k != "k"}
+def chip_files(c):
+    """the listing of one hwmon directory as c19_redirect.build_hwmon writes it"""
+    files = []
+    if c.get("name") is not None:
+        files.append([hx(b"name"), c["name"]])
+    for kind, key, attrs, other in (("temp", "temps", ("input", "label", "max", "crit"), "alarm"),
+                                    ("fan", "fans", ("input", "label"), "min")):
+        for j, s in enumerate(c.get(key, []), 1):
+            j = s.get("idx", j)
+            for k in attrs:
+                if s.get(k) is not None:
+                    files.append([hx(("%s%d_%s" % (kind, j, k)).encode()), s[k]])
+            if s.get("other"):
+                files.append([hx(("%s%d_%s" % (kind, j, other)).encode()), hx(b"0\n")])
+    return files
+
+
+def driver_chips(chips):
+    """chips at file-name level: the model derives the sensor / fan bases from the names (`x.split('_')[0]`)"""
+    return [{"nested": bool(c.get("nested")), "files": chip_files(c)} for c in chips]
 
 
 def driver_line(case, orders=None):
@@ -550,11 +673,14 @@ def driver_line(case, orders=None):
     if fn == "temps":
         zones = []
         for z, o in zip(case["zones"], orders):
-            zones.append({"temp": z["temp"], "typ": z["typ"], "trips": [strip_trip(t) for t in order_trips(z, o)]})
-        return {"op": "temps", "fahrenheit": case["fahrenheit"], "chips": case["chips"],
+            # file-name level: the listing of the directory + the iteration order of the set of derived names
+            # (observed in the interpreter that runs psutil); the model derives the names itself and refuses an
+            # `order` that is not an iteration order of that set
+            zones.append({"files": zone_files(z), "order": [hx(n.encode()) for n in o]})
+        return {"op": "temps", "fahrenheit": case["fahrenheit"], "chips": driver_chips(case["chips"]),
                 "coretemp": case.get("coretemp", 0), "zones": zones}
     if fn == "fans":
-        return {"op": "fans", "chips": case["chips"]}
+        return {"op": "fans", "chips": driver_chips(case["chips"])}
     if fn == "battery":
         return {"op": "battery", "dir": case["dir"], "supplies": case["supplies"]}
     if fn == "cpufreq":
@@ -716,11 +842,31 @@ def temps_features(case, impl):
             f.add("chip_name_" + fs_kind(c["name"]))
     listed = any(s.get(k) is not None for _, s in sensors for k in ("input", "label", "max", "crit")) or \
         any(s.get("other") for _, s in sensors)
+    for c, s in sensors:
+        if s.get("idx", 0) >= 10:
+            f.add("sensor_index_ge_10")
+        if any(isinstance(s.get(k), str) and bytes.fromhex(s[k]) != bytes.fromhex(s[k]).strip() + b"\n"
+               and bytes.fromhex(s[k]).strip() for k in ("input", "max", "crit")):
+            f.add("number_padded")
     if not listed and not case.get("coretemp") and case["zones"]:
         f.add("zone_fallback")
         for z in case["zones"]:
             if len(z["trips"]) >= 2:
                 f.add("zone_multi_trip")
+            if len(z["trips"]) >= 11:
+                f.add("zone_trips_ge_11")
+            for t in z["trips"]:
+                kind = bytes.fromhex(t["typ"]).strip() if isinstance(t["typ"], str) else b""
+                if t["k"] >= 10:
+                    f.add("zone_trip_index_ge_10")
+                    if kind in (b"critical", b"high"):
+                        f.add("zone_threshold_at_index_ge_10")
+                if t["k"] >= 100:
+                    f.add("zone_trip_index_3plus_digits")
+            if z.get("extra"):
+                f.add("zone_other_files")
+                if any(n.startswith("trip_point") for n, _ in z["extra"]):
+                    f.add("zone_foreign_trip_point_name")
             kinds = [bytes.fromhex(t["typ"]).strip() for t in z["trips"] if isinstance(t["typ"], str)]
             if kinds.count(b"critical") > 1 or kinds.count(b"high") > 1:
                 f.add("zone_dup_kind")
@@ -750,6 +896,38 @@ def generic_features(case, impl):
         v = impl["value"]
         f.add("secs_" + ({-1: "unknown", -2: "unlimited"}.get(v["secsleft"], "number")))
         f.add("plugged_%s" % v["plugged"])
+        if v["secsleft"] < -2:
+            f.add("secs_negative")
+    if fn == "battery":
+        names = [bytes.fromhex(s["name"]) for s in case.get("supplies", [])]
+        bats = [n for n in names if n.startswith(b"BAT") or b"battery" in n.lower()]
+        if len(bats) >= 2:
+            f.add("several_batteries")
+        if bats and not min(bats).startswith(b"BAT"):
+            f.add("selected_by_infix_battery")
+        if bats and b"hid" in min(bats):
+            f.add("selected_hid_device_battery")
+        if names and not bats:
+            f.add("only_non_battery_supplies")
+        if any(n in (b"CMB0", b"CMB1", b"bat0", b"Bat1", b"hidpp_batt_0", b"batt-ery") for n in names):
+            f.add("lookalike_name_present")
+        for s in case.get("supplies", []):
+            for k in ("power_now", "current_now"):
+                if isinstance(s.get(k), str) and bytes.fromhex(s[k]).strip().startswith(b"-"):
+                    f.add("negative_power_figure")
+            if any(isinstance(v, str) and k not in ("name", "status", "type", "scope") and bytes.fromhex(v).strip()
+                   and bytes.fromhex(v) != bytes.fromhex(v).strip() + b"\n" for k, v in s.items()):
+                f.add("number_padded")
+            if "scope" in s or "type" in s:
+                f.add("type_or_scope_file_present")
+    if fn == "fans":
+        for c in case.get("chips", []):
+            for fan in c.get("fans", []):
+                if fan.get("idx", 0) >= 10:
+                    f.add("fan_index_ge_10")
+                if isinstance(fan.get("input"), str) and bytes.fromhex(fan["input"]).strip() \
+                        and bytes.fromhex(fan["input"]) != bytes.fromhex(fan["input"]).strip() + b"\n":
+                    f.add("number_padded")
     if fn == "cpufreq":
         f.add("variant_sysfs" if case["variant"] else "variant_cpuinfo")
         f.add("percpu" if case["percpu"] else "mean")
@@ -893,9 +1071,11 @@ def gen_case(rng, i):
     if slot < 8:
         return gen_temps(rng, TEMP_FAMILIES[(i // 20 * 8 + slot) % len(TEMP_FAMILIES)])
     if slot < 10:
-        return gen_fans(rng, ["direct", "nested", "mixed", "fan_junk", "fan_no_name"][(i // 20 * 2 + slot) % 5])
+        return gen_fans(rng, ["direct", "nested", "mixed", "fan_junk", "fan_no_name", "fan_padded",
+                              "fan_big_index"][(i // 20 * 2 + slot) % 7])
     if slot < 14:
-        return gen_battery(rng, ["normal", "normal", "bat_junk", "no_battery", "normal", "no_dir"][(i // 20 * 4 + slot) % 6])
+        return gen_battery(rng, ["normal", "normal", "bat_junk", "no_battery", "normal", "no_dir", "names", "bat_padded",
+                                 "negative"][(i // 20 * 4 + slot) % 9])
     if slot < 17:
         return gen_cpufreq(rng, ["plain", "info_match", "offline", "percpu_dirs", "both_dirs", "gaps", "freq_junk",
                                  "cpuinfo_variant", "cpuinfo_variant"][(i // 20 * 3 + slot) % 9])
@@ -951,6 +1131,13 @@ def correspond(ctx, res):
             cases.append(gen_cpucount(ctx.rng, ("cpuinfo_procs", "stat_rows", "zero")[k % 3]))
         for k in range(ctx.n(80, 2000)):
             cases.append(gen_stats(ctx.rng, ("cpustats", "boottime")[k % 2]))
+        # round 2: file-name level of the zone / hwmon directories, battery selection rule, blanks, negative figures
+        for k in range(ctx.n(90, 3000)):
+            cases.append(gen_temps(ctx.rng, ("many_trips", "wide_index", "zone_extra", "big_index", "padded")[k % 5]))
+        for k in range(ctx.n(120, 4000)):
+            cases.append(gen_battery(ctx.rng, ("names", "negative", "bat_padded")[k % 3]))
+        for k in range(ctx.n(40, 1000)):
+            cases.append(gen_fans(ctx.rng, ("fan_padded", "fan_big_index")[k % 2]))
         quick = ctx.tier == "quick"
         ex_z = [zone_case_with_order(t) for t in exhaustive_zone_orders(3 if quick else 4)]
         ex_b = list(exhaustive_battery(quick))
@@ -1026,11 +1213,17 @@ def _shrink_candidates(case):
             for j in range(len(z["trips"])):
                 z2 = dict(z, trips=z["trips"][:j] + z["trips"][j + 1:])
                 yield dict(case, zones=case["zones"][:i] + [z2] + case["zones"][i + 1:])
+            if z.get("extra"):
+                yield dict(case, zones=case["zones"][:i] + [dict(z, extra=z["extra"][1:])] + case["zones"][i + 1:])
         if case.get("fahrenheit"):
             yield dict(case, fahrenheit=False)
     elif fn == "fans":
         for i in range(len(case["chips"])):
             yield dict(case, chips=case["chips"][:i] + case["chips"][i + 1:])
+        for i, c in enumerate(case["chips"]):
+            for j in range(len(c["fans"])):
+                c2 = dict(c, fans=c["fans"][:j] + c["fans"][j + 1:])
+                yield dict(case, chips=case["chips"][:i] + [c2] + case["chips"][i + 1:])
     elif fn == "battery":
         for i in range(len(case["supplies"])):
             yield dict(case, supplies=case["supplies"][:i] + case["supplies"][i + 1:])
